@@ -74,7 +74,12 @@ func c07(c *hc.Ctx) {
 		scale := math.Sqrt(math.Abs(det)) + math.Abs(m[0][0]) + math.Abs(m[0][1]) + math.Abs(m[1][0]) + math.Abs(m[1][1])
 		tol := 1e-7 * (1 + scale) * 50
 		bad := ""
+		badSeg := -1
 		for i := range a {
+			if bad != "" {
+				break
+			}
+			badSeg = i
 			if a[i].Kind != b[i].Kind {
 				bad = fmt.Sprintf("segment %d kind %c -> %c", i, a[i].Kind, b[i].Kind)
 				break
@@ -95,23 +100,31 @@ func c07(c *hc.Ctx) {
 					}
 				}
 			} else {
-				// arcs: parametrisation by angle is not affine invariant; compare as ordered point sets
-				fine := hc.SampleSeg(b[i], 512)
+				// arcs: parametrisation by angle is not affine invariant; compare as ordered point sets.
+				// Distance is measured to the POLYLINE through 2048 samples of the transformed arc (not to
+				// the nearest sample, whose spacing is very uneven on eccentric ellipses); the allowance is
+				// the sagitta of the sampling plus the library's own angle round-off, relative to the size.
+				fine := hc.SampleSeg(b[i], 2048)
+				ext := 1.0
+				for _, q := range fine {
+					ext = math.Max(ext, q.Dist(fine[0]))
+				}
+				allow := tol + 2e-4*ext
 				prev := -1
 				for k := range sa {
 					mp := m.Dot(canvas.Point{X: sa[k].X, Y: sa[k].Y})
+					pp := hc.P2{X: mp.X, Y: mp.Y}
 					best, bi := math.Inf(1), 0
-					for j := range fine {
-						if d := (hc.P2{mp.X, mp.Y}).Dist(fine[j]); d < best {
+					for j := 0; j+1 < len(fine); j++ {
+						if d := hc.DistPointSeg(pp, fine[j], fine[j+1]); d < best {
 							best, bi = d, j
 						}
 					}
-					ext := fine[0].Dist(fine[len(fine)/2]) + 1
-					if best > 1e-2*ext/4+tol && best > hc.PolylineLen(fine)/512*2 {
-						bad = fmt.Sprintf("arc segment %d: image point %v is %g away from the transformed arc", i, mp, best)
+					if best > allow {
+						bad = fmt.Sprintf("arc segment %d: image point %v is %g away from the transformed arc (allowance %g)", i, mp, best, allow)
 						break
 					}
-					if bi < prev-8 {
+					if bi < prev-32 {
 						bad = fmt.Sprintf("arc segment %d: direction not preserved (index %d after %d)", i, bi, prev)
 						break
 					}
@@ -126,7 +139,11 @@ func c07(c *hc.Ctx) {
 			}
 		}
 		if bad != "" {
-			c.Fail("transform-image", bad, map[string]any{"path": p.String(), "m": []float64{m[0][0], m[0][1], m[0][2], m[1][0], m[1][1], m[1][2]}, "out": q.String()})
+			kind := "transform-image"
+			if badSeg >= 0 && a[badSeg].Kind == 'A' && eigenAbsEpsilon(a[badSeg], m) {
+				kind += "+eigen-abs-epsilon"
+			}
+			c.Fail(kind, bad, map[string]any{"path": p.String(), "m": []float64{m[0][0], m[0][1], m[0][2], m[1][0], m[1][1], m[1][2]}, "out": q.String()})
 		}
 		if it == 0 {
 			c.Sample(fmt.Sprintf("Transform %q by %v", p.String(), m))
@@ -156,6 +173,32 @@ func c07(c *hc.Ctx) {
 
 // algebraic laws evaluated on the real code (tolerance-based); gives the concrete input when a
 // theorem about the translated definition no longer holds
+// eigenAbsEpsilon: cause predicate of a known defect. Path.Transform finds the radii of a transformed
+// arc as eigenvalues of Q = T^-T diag(1/rx^2, 1/ry^2) T^-1 with solveQuadraticFormula, which tests
+// its discriminant and constant term against the ABSOLUTE Epsilon 1e-10 although the entries of Q are
+// of size 1/r^2. True when one of those tests fires for this arc although the exact quantity is not 0.
+func eigenAbsEpsilon(s hc.Seg, m canvas.Matrix) bool {
+	sin, cos := math.Sincos(s.Phi)
+	// T = m * Rot(phi) (linear part)
+	t00 := m[0][0]*cos + m[0][1]*sin
+	t01 := -m[0][0]*sin + m[0][1]*cos
+	t10 := m[1][0]*cos + m[1][1]*sin
+	t11 := -m[1][0]*sin + m[1][1]*cos
+	det := t00*t11 - t01*t10
+	if det == 0 {
+		return false
+	}
+	i00, i01, i10, i11 := t11/det, -t01/det, -t10/det, t00/det
+	ex, ey := 1/(s.Rx*s.Rx), 1/(s.Ry*s.Ry)
+	q00 := i00*i00*ex + i10*i10*ey
+	q01 := i00*i01*ex + i10*i11*ey
+	q11 := i01*i01*ex + i11*i11*ey
+	disc := (q00-q11)*(q00-q11) + 4*q01*q01
+	dq := q00*q11 - q01*q01
+	rel := math.Sqrt(disc) / (q00 + q11) // relative spread of the eigenvalues
+	return (disc <= 1.0001e-10 || math.Abs(dq) <= 1.0001e-10) && rel > 1e-9
+}
+
 func c07laws(c *hc.Ctx) {
 	{
 		near := func(a, b canvas.Point, s float64) bool { return math.Hypot(a.X-b.X, a.Y-b.Y) <= 1e-9*(1+s) }
